@@ -38,6 +38,14 @@ def replay_compwriter(v, tier, ev):
                     dict(engine="compw", profile="s20", run=dict(par=viol["par"], steps=viol["steps"][:viol["step"] + 1]), detail=viol["detail"]))
     if o["drifts"]:
         log(f"MODEL-DRIFT module=CompWriter drifts={o['drifts']} sample={json.dumps(o['drift_samples'][:1])[:500]}")
+    # unbounded, production block size: the inductive invariant (with the footer-length clause) by Apalache
+    r0, o0 = apalache("CompWriterInd", "Init", "IndInv", 0, "c01-cw0")
+    r1, o1 = apalache("CompWriterInd", "IndInit", "IndInv", 1, "c01-cw1")
+    if "error" in (r0, r1):
+        v.violation(dict(check="apalache", kind="inductive-invariant-fails", stack="comp", op="finalize", name=None, src=None),
+                    dict(module="CompWriterInd", base=o0[-600:], step=o1[-600:]))
+    ev["compwriter_inductive"] = dict(module="CompWriterInd", block=4194304, base=r0, step=r1,
+                                      lemma="the stream length derived from the footer equals the bytes written, any history, write sizes < 2^40")
     ev["compwriter"] = dict(edges=len(edges), states=r.distinct, runs=o["runs"], steps=o["steps"], hidden_compared=o["hidden_compared"],
                             drifts=o["drifts"], drift_samples=o["drift_samples"][:2])
     ev["states"] = ev.get("states", 0) + r.distinct
@@ -121,7 +129,7 @@ def main(tier):
                       stride_of=(lambda p: 1 if p["level"] == 5 and p["nrecip"] == 1 else (7 if not heavy else 3)))
     replay_compwriter(v, tier, ev)
     replay_config(v, tier, ev)
-    cov = dict(states=ev.get("states", 0), transitions=ev.get("transitions", 0), compression_writer_model=ev.get("compwriter"), configuration_model=ev.get("config"),
+    cov = dict(states=ev.get("states", 0), transitions=ev.get("transitions", 0), compression_writer_model=ev.get("compwriter"), compression_writer_inductive=ev.get("compwriter_inductive"), configuration_model=ev.get("config"),
                traces_validated_against_impl=ev.get("runs", 0), samples=ev.get("samples", [])[:3] or ["none"],
                edges_exported=ev.get("edges", 0), steps_replayed=ev.get("steps", 0),
                hidden_state_steps_compared=ev.get("hidden_compared", 0), archives_read_back=ev.get("readbacks", 0),
